@@ -99,6 +99,22 @@ func (n *Net) SetDown(a, b mesh.PeerName, down bool, ga, gb mesh.GossipData) {
 	}
 }
 
+// Replace puts a fresh node (a restarted router) in the place of name: every connection to and from it is broken
+// first, and stays down until SetDown(.., false, ..) re-establishes it.
+func (n *Net) Replace(name mesh.PeerName) *Node {
+	for other := range n.Nodes {
+		if other != name {
+			n.SetDown(name, other, true, nil, nil)
+		}
+	}
+	n.mu.Lock()
+	defer n.mu.Unlock()
+	old := n.Nodes[name]
+	nd := &Node{net: n, Name: name, senders: map[mesh.PeerName]*sender{}, Wire: map[mesh.PeerName][]Msg{}, carry: old.carry}
+	n.Nodes[name] = nd
+	return nd
+}
+
 func (nd *Node) senderFor(to mesh.PeerName) *sender {
 	s := nd.senders[to]
 	if s == nil {
